@@ -191,6 +191,7 @@ class Interp:
         sub = Interp(self.facts, B, self.summaries, self.unroll, self.inline, self.field_hook, self.for_once, self.result_combinators, self.combinators, self.generic_loops,
                      self.domain, self.local_try, self.places)
         sub._depth = getattr(self, '_depth', 0) + 1
+        sub.exact_seqs, sub.carry_vecs = self.exact_seqs, self.carry_vecs
         env = {}
         states = [St(env, st.heap, st.ev, st.pc, st.ctr)]
         for p, a in zip(rec['params'], args):
@@ -315,7 +316,14 @@ class Interp:
         return outs + abn
 
     def ev_AddrOf(self, e, st):
-        return self.ev(e['e'], st)
+        outs = self.ev(e['e'], st)
+        inner = e['e']
+        if e.get('mut') and not self.places and inner.get('k') == 'Path' and inner.get('res') == 'local' and st.env.get(inner['bind'], ('unk',))[0] in ('vec', 'vecpush'):
+            # `&mut v` of a local whose elements are tracked is handed to code without a model (the modelled uses - encode_into,
+            # mem::take / replace - are intercepted before their arguments are evaluated; with `places` the reference names the
+            # place and writes through it are followed): it may change the vector, so the local no longer holds the tracked elements
+            outs = [Out(o.kind, o.val, o.st.set(inner['bind'], ('unk', 'vector after &mut'))) if o.kind == 'val' else o for o in outs]
+        return outs
 
     def ev_Cast(self, e, st):
         outs = []
@@ -550,6 +558,12 @@ class Interp:
                     outs.append(Out('val', ('lit', a[1][lo:hi]), s))
                 else:
                     outs.append(Out('div', UNIT, s.event(('panic', 'slice index out of range', (a, b), e))))
+            elif self.exact_seqs and a[0] in ('vec', 'array') and ground(a) and b[0] == 'lit' and isinstance(b[1], int) and not isinstance(b[1], bool):
+                # a vector whose elements are all known, at a literal position: the element, or the bounds-check panic
+                if 0 <= b[1] < len(a[1]):
+                    outs.append(Out('val', a[1][b[1]], s))
+                else:
+                    outs.append(Out('div', UNIT, s.event(('panic', 'index out of bounds', (a, b), e))))
             else:
                 r = self.domain.index(self, a, b, e, s) if self.domain is not None else None
                 if r is not None:
@@ -744,6 +758,12 @@ class Interp:
                 el = [('lit', x) for x in range(a[1], b[1] + (1 if itv[1].endswith('RangeInclusive') else 0))]
         elif itv[0] == 'lit' and isinstance(itv[1], bytes) and len(itv[1]) <= 64:
             el = [('lit', x) for x in itv[1]]
+        elif self.exact_seqs and itv[0] in ('vec', 'array') and len(itv[1]) <= 64 and ground(itv):
+            el = list(itv[1])           # a vector / array all of whose elements are known values
+        elif self.exact_seqs and itv[0] == 'enumerate' and len(itv) == 2:
+            inner = self.literal_elems(itv[1])
+            if inner is not None:
+                el = [('tuple', (('lit', i), x)) for i, x in enumerate(inner)]
         if el is None:
             return None
         return list(reversed(el)) if rev else el
@@ -811,6 +831,10 @@ class Interp:
                 outs.extend(self.loop_common(e, s0, one, always=True))
         return outs
 
+    exact_seqs = False    # (set on an instance) vectors / arrays all of whose elements are known values are evaluated element by element:
+                          # index, for, pop, extend, enumerate / map / filter, any / all / position / find / count, first / last /
+                          # split_last / windows (literal evaluation of list-valued code; off by default: rules that read the
+                          # *generic element* of an adaptor over a `vec![]` local keep seeing it)
     carry_vecs = False    # (set on an instance) local vectors pushed to in a loop body are loop-carried too, see carried_states
 
     def carried_states(self, loop, st, runner, keep_initial=False):
@@ -1186,6 +1210,31 @@ class Interp:
                     s2 = self.vec_write(tgt, new, o.st, e).event(('call', cal, (old, o.val), e))
                     outs.append(Out('val', UNIT, s2))
                 return outs
+        if self.exact_seqs and cal.endswith('alloc::vec::Vec::<T, A>::pop') and not e['args']:
+            # vec.pop() on a local vector all of whose elements are known: the last element leaves the vector (None when empty)
+            recv = hirq.peel_refs(e['recv'])
+            if recv['k'] == 'Path' and recv.get('res') == 'local':
+                old = st.env.get(recv['bind'])
+                if old is not None and old[0] == 'vec' and ground(old):
+                    if not old[1]:
+                        return [Out('val', ('ctor', 'None', ()), st)]
+                    s2 = st.set(recv['bind'], ('vec', old[1][:-1])).event(('call', cal, (old,), e))
+                    return [Out('val', ('ctor', 'Some', (old[1][-1],)), s2)]
+        if self.exact_seqs and cal.rsplit('::', 1)[-1] == 'extend' and 'alloc::vec::Vec<' in cal and len(e['args']) == 1:
+            # vec.extend(seq) where the local vector and the sequence are both known element by element: the pushes, in order
+            recv = hirq.peel_refs(e['recv'])
+            if recv['k'] == 'Path' and recv.get('res') == 'local' and st.env.get(recv['bind'], ('unk',))[0] == 'vec':
+                outs, handled = [], True
+                for o in self.ev(e['args'][0], st):
+                    if o.kind != 'val':
+                        outs.append(o); continue
+                    old = o.st.env.get(recv['bind'], ('unk', 'vec'))
+                    if o.val[0] == 'vec' and old[0] == 'vec':
+                        outs.append(Out('val', UNIT, o.st.set(recv['bind'], ('vec', old[1] + o.val[1])).event(('call', cal, (old, o.val), e))))
+                    else:
+                        handled = False
+                if handled:
+                    return outs
         if self.places and hirq.strip_refs(e['recv'].get('ty') or '').startswith('alloc::vec::Vec<') \
                 and (e['recv'].get('adj_ty') or e['recv'].get('ty') or '').startswith('&mut '):
             # any method that borrows a tracked vector mutably (Vec's own, or a slice method reached through DerefMut)
@@ -1299,8 +1348,18 @@ class Interp:
                     return outs + abn
         res, abn = self.seq([e['recv']] + e['args'], st)
         outs = []
+        # a `&mut self` method without a model above, called on a local whose elements are tracked ('vec'): whatever it does to the
+        # vector (clear, truncate, sort, retain ...) is not known, so the local no longer holds the tracked elements afterwards
+        recv = hirq.peel_refs(e['recv'])
+        forget = None
+        if recv['k'] == 'Path' and recv.get('res') == 'local' and str(e['recv'].get('adj_ty') or '').startswith('&mut') \
+                and st.env.get(recv['bind'], ('unk',))[0] in ('vec', 'vecpush') and cal.rsplit('::', 1)[-1] not in ('reserve', 'reserve_exact', 'shrink_to_fit'):
+            forget = recv['bind']
         for vals, s in res:
-            outs.extend(self.call(cal, vals, e, s))
+            for o in self.call(cal, vals, e, s):
+                if forget is not None and o.kind == 'val':
+                    o = Out('val', o.val, o.st.set(forget, ('unk', 'vector after %s()' % cal.rsplit('::', 1)[-1])))
+                outs.append(o)
         return outs + abn
 
     VEC_CAPACITY_ONLY = ('reserve', 'reserve_exact', 'shrink_to_fit', 'shrink_to', 'try_reserve', 'try_reserve_exact')
@@ -1361,6 +1420,12 @@ class Interp:
             return self.call(fv[1], args, node, st)
         if fv[0] == 'closure':
             return self.apply_closure(fv, args, st, node)
+        # the application of a function value that is neither a named function nor a closure of this body (e.g. the parser a nom
+        # combinator returns): a rule may supply what it yields at this site
+        for sm in self.summaries:
+            r = sm(self, '<indirect>', [fv] + list(args), node, st)
+            if r is not None:
+                return r
         return [Out('val', ('call', '<indirect>', (fv,) + tuple(args), node.get('id')), st.event(('call', '<indirect>', (fv,) + tuple(args), node)))]
 
     def closure_node(self, fv):
@@ -1737,6 +1802,16 @@ def bin_term(op, a, b):
         return ('not', ('bin', 'Eq', a, b))
     return ('bin', op, a, b)
 
+def ground(t):
+    """t is a completely known value: a literal, or a vector / array / tuple / constructor of completely known values"""
+    if t[0] == 'lit':
+        return True
+    if t[0] in ('vec', 'array', 'tuple'):
+        return all(ground(x) for x in t[1])
+    if t[0] == 'ctor':
+        return all(ground(x) for x in t[2])
+    return False
+
 def vec_truncate(c, n):
     """The content of vector term c after truncate(n)."""
     if c[0] == 'vec' and n[0] == 'lit' and isinstance(n[1], int) and not isinstance(n[1], bool):
@@ -1751,10 +1826,13 @@ def vec_truncate(c, n):
             x = x[1]
     return ('truncated', c, n)
 
-def finite_seq(t):
+def finite_seq(t, exact=False):
     """The element terms of a sequence value whose length is known syntactically: an array expression `[a, b, c]` (iter / into_iter
-    are transparent), also after zip / enumerate with literal counters.  None for anything else."""
+    are transparent), also after zip / enumerate with literal counters; a vector all of whose elements are known values.  None for
+    anything else."""
     if t[0] == 'array' and len(t[1]) <= 16:
+        return list(t[1])
+    if exact and t[0] == 'vec' and len(t[1]) <= 16 and ground(t):
         return list(t[1])
     return None
 
@@ -1779,6 +1857,75 @@ def zip_finite(I, a, b):
     if xs is None or ys is None:
         return None
     return [('tuple', (x, y)) for x, y in zip(xs, ys)]
+
+def known_seq_summary(I, cal, name, args, node, st):
+    """Exact models of slice / iterator / Option functions on *completely known* sequences (vectors, arrays, literal byte strings
+    and what enumerate / windows make of them).  Each is the std function's definition applied to the known elements; nothing is
+    modelled when an element is not known (the generic models / opaque calls apply then)."""
+    is_iter = 'iterator::Iterator::' in cal or 'core::iter::traits::iterator::Iterator>::' in cal
+    is_slice = cal.startswith('core::slice::<impl [T]>::') or cal.startswith('alloc::vec::Vec::<T, A>::') or cal.startswith('alloc::vec::Vec::<T>::')
+    if is_slice and args and args[0][0] in ('vec', 'array') and ground(args[0]):
+        xs = args[0][1]
+        if name == 'len' and len(args) == 1:
+            return [Out('val', ('lit', len(xs)), st)]
+        if name == 'is_empty' and len(args) == 1:
+            return [Out('val', ('lit', len(xs) == 0), st)]
+        if name in ('first', 'last') and len(args) == 1:
+            # first() / last(): None for an empty slice, else the first / last element
+            return [Out('val', ('ctor', 'Some', (xs[0 if name == 'first' else -1],)) if xs else ('ctor', 'None', ()), st)]
+        if name == 'split_last' and len(args) == 1:
+            # split_last(): None for an empty slice, else (last element, everything before it)
+            return [Out('val', ('ctor', 'Some', (('tuple', (xs[-1], ('vec', xs[:-1]))),)) if xs else ('ctor', 'None', ()), st)]
+        if name == 'split_first' and len(args) == 1:
+            return [Out('val', ('ctor', 'Some', (('tuple', (xs[0], ('vec', xs[1:]))),)) if xs else ('ctor', 'None', ()), st)]
+        if name == 'windows' and len(args) == 2 and args[1][0] == 'lit' and isinstance(args[1][1], int) and args[1][1] > 0:
+            # windows(k): every contiguous run of k elements, in order (none when the slice is shorter than k; k == 0 panics)
+            k = args[1][1]
+            return [Out('val', ('vec', tuple(('vec', xs[i:i + k]) for i in range(max(len(xs) - k + 1, 0)))), st)]
+    if is_iter and len(args) == 2 and name in ('any', 'all', 'position', 'find') and args[1][0] in ('closure', 'fn') and I.literal_elems(args[0]) is not None:
+        # a search over a known sequence: the predicate is applied to the elements in order until it decides (short circuit)
+        states, outs = [st], []
+        for i, x in enumerate(I.literal_elems(args[0])):
+            nxt = []
+            for s in states:
+                for o in I.apply(args[1], [x], node, s):
+                    if o.kind != 'val':
+                        outs.append(o); continue
+                    for truth, s3 in I.decide(o.val, o.st):
+                        if truth == (name != 'all'):
+                            hit = {'any': TRUE, 'all': FALSE, 'position': ('ctor', 'Some', (('lit', i),)), 'find': ('ctor', 'Some', (x,))}[name]
+                            outs.append(Out('val', hit, s3))
+                        else:
+                            nxt.append(s3)
+            states = nxt
+        miss = {'any': FALSE, 'all': TRUE, 'position': ('ctor', 'None', ()), 'find': ('ctor', 'None', ())}[name]
+        return outs + [Out('val', miss, s) for s in states]
+    if is_iter and name == 'count' and len(args) == 1 and I.literal_elems(args[0]) is not None:
+        return [Out('val', ('lit', len(I.literal_elems(args[0]))), st)]
+    if cal.startswith('core::option::Option::<T>::') and name == 'filter' and len(args) == 2 and args[1][0] in ('closure', 'fn') \
+            and args[0][0] == 'ctor' and args[0][1] in ('Some', 'None'):
+        # Option::filter(p): None stays None; Some(x) stays Some(x) if p(&x), else becomes None
+        if args[0][1] == 'None':
+            return [Out('val', args[0], st)]
+        outs = []
+        for o in I.apply(args[1], [args[0][2][0]], node, st):
+            if o.kind != 'val':
+                outs.append(o); continue
+            for truth, s3 in I.decide(o.val, o.st):
+                outs.append(Out('val', args[0] if truth else ('ctor', 'None', ()), s3))
+        return outs
+    if cal.startswith('core::num::<impl ') and name in ('wrapping_sub', 'wrapping_add', 'saturating_sub', 'saturating_add') and len(args) == 2 \
+            and all(a[0] == 'lit' and isinstance(a[1], int) and not isinstance(a[1], bool) for a in args):
+        # integer arithmetic on literals that wraps around / saturates at the bounds of the type
+        rng = INT_RANGE.get(cal[len('core::num::<impl '):].split('>')[0])
+        if rng is not None:
+            v = args[0][1] - args[1][1] if name.endswith('sub') else args[0][1] + args[1][1]
+            if name.startswith('wrapping'):
+                v = (v - rng[0]) % (rng[1] - rng[0] + 1) + rng[0]
+            else:
+                v = min(max(v, rng[0]), rng[1])
+            return [Out('val', ('lit', v), st)]
+    return None
 
 class NotEvaluable(Exception):
     pass
@@ -2053,6 +2200,10 @@ def builtin_summary(I, cal, args, node, st):
                 for o in I.apply(args[1], [inner], node, s):
                     outs.append(Out('val', ('ctor', 'Err', (o.val,)), o.st) if o.kind == 'val' else o)
         return outs
+    if I.exact_seqs:
+        r = known_seq_summary(I, cal, name, args, node, st)
+        if r is not None:
+            return r
     if name in ('is_empty', 'len') and args and args[0][0] == 'lit' and isinstance(args[0][1], (bytes, str)):
         return [Out('val', ('lit', len(args[0][1]) == 0 if name == 'is_empty' else len(args[0][1])), st)]
     if name in ('is_empty', 'len') and args and args[0][0] == 'vec' and cal.startswith('alloc::vec::Vec'):
@@ -2108,14 +2259,14 @@ def builtin_summary(I, cal, args, node, st):
         z = zip_finite(I, args[0], args[1])
         if z is not None:
             return [Out('val', ('array', tuple(z)), st)]
-    if cal == 'core::iter::traits::iterator::Iterator::enumerate' and len(args) == 1 and finite_seq(args[0]) is not None:
-        return [Out('val', ('array', tuple(('tuple', (('lit', i), x)) for i, x in enumerate(finite_seq(args[0])))), st)]
+    if cal == 'core::iter::traits::iterator::Iterator::enumerate' and len(args) == 1 and finite_seq(args[0], I.exact_seqs) is not None:
+        return [Out('val', ('array', tuple(('tuple', (('lit', i), x)) for i, x in enumerate(finite_seq(args[0], I.exact_seqs)))), st)]
     if cal in ('core::iter::traits::iterator::Iterator::map', 'core::iter::traits::iterator::Iterator::filter_map', 'core::iter::traits::iterator::Iterator::filter') \
-            and len(args) == 2 and args[1][0] in ('closure', 'fn') and finite_seq(args[0]) is not None:
+            and len(args) == 2 and args[1][0] in ('closure', 'fn') and finite_seq(args[0], I.exact_seqs) is not None:
         # an adaptor over an array expression is evaluated exactly, element by element in order (like a `for` over a literal
         # sequence): the result is the vector of what the closure yields / keeps, on each combination of its decisions
         states, abn = [((), st)], []
-        for x in finite_seq(args[0]):
+        for x in finite_seq(args[0], I.exact_seqs):
             nxt = []
             for acc, s in states:
                 for o in I.apply(args[1], [x], node, s):
